@@ -13,7 +13,10 @@ compares multisets), user code calling register_handler itself.
 import ast
 
 from .. import analysis
-from ..logic import entails
+from ..cfg import build_cfg
+from ..dataflow import private_closure, node_defs, node_uses
+from ..logic import entails, reach_avoiding
+from ..symtext import Expander
 from ..astutil import calls_in, call_name, where, kw, local_assignments
 from ..cfg import build_cfg
 from ..dataflow import node_of_ast
@@ -23,6 +26,8 @@ DECIDED = [
     "PURE-3 registered rules and the Validation driver write nothing but the issue list and the threaded id map",
     "OWN-7 the default registry Validation._handlers is written only inside register_handler; register_handler is called only at module level of validation.py",
     "TS-1 Validation(reset=True) shadows the registry with a fresh dict on every path; register_custom_handler writes through self; its call sites use receivers built with reset=True",
+    "DET-1 no rule lets the iteration order of a set decide what it reports",
+    "CACHE-1 (shared with C18) a terminology enters the cache only after it was finalised (the terminology rules read that cache)",
     "RESET-1 run_validation empties the issue list before any rule runs and on every path",
 ]
 NOT_DECIDED = ["set iteration order of handlers across processes (issues are compared as multisets)",
@@ -198,6 +203,47 @@ def run(prog, rep):
         rep.check(good, "TS-1", "%s: register_custom_handler on %s" % (f.short, detail[:60]), "receiver built with reset=True",
                   "register_custom_handler is called on a Validation not built with the literal reset=True (%s): the rule is "
                   "added to the default registry" % detail, where(f, c), witness="default validations report the custom rule afterwards")
+
+    # --------------------------------------------------------------- DET-1
+    rep.rule("DET-1", "a registered rule that picks one element of a set by max()/min() with a key (ties are broken by the set's iteration "
+                      "order, which depends on the process' string hash seed) may use the pick only where the set is known to have one "
+                      "element: every path from the pick to a use either re-binds the variable or knows `len(set(..)) > 1` to be false")
+    n_pick = 0
+    for h in handlers:
+        for hh in private_closure(h):
+            g = build_cfg(hh)
+            x = Expander(hh, g)
+            for n in g.nodes:
+                st = n.ast
+                if not (n.kind == "stmt" and isinstance(st, ast.Assign) and len(st.targets) == 1 and isinstance(st.targets[0], ast.Name)
+                        and isinstance(st.value, ast.Call) and call_name(st.value) in ("max", "min") and st.value.args
+                        and isinstance(st.value.args[0], ast.Call) and call_name(st.value.args[0]) in ("set", "frozenset")
+                        and any(k.arg == "key" for k in st.value.keywords)):
+                    continue
+                n_pick += 1
+                var = st.targets[0].id
+                setx = unparse(st.value.args[0])
+                multi = "len(%s) > 1" % setx
+                redefs = set(m.id for m in g.nodes if m.id != n.id and var in node_defs(m))
+
+                def edge_ok(s0, k0, d0, redefs=redefs, multi=multi):
+                    if d0.id in redefs:
+                        return True
+                    return s0.kind == "branch" and k0 in ("true", "false") and \
+                        entails(s0.ast.test, k0 == "true", lambda lf: "MULTI" if unparse(lf) == multi else None, lambda a0: not a0["MULTI"], ["MULTI"])
+                uses = [m for m in g.nodes if m.id != n.id and var in node_uses(m)
+                        and not (m.kind == "branch" and unparse(m.ast.test) == multi)]
+                bad = [m for m in uses if reach_avoiding(g, n, m, edge_ok, skip_kinds=("exc",))]
+                rep.check(not bad, "DET-1", "%s: pick from %s is used only for singletons" % (hh.short, setx), "ok",
+                          "%s uses `%s` (an arbitrary element of %s when several tie) at line %s without excluding several elements: the "
+                          "reported issue depends on the interpreter's hash seed" % (hh.short, var, setx, bad[0].lineno if bad else "?"), where(hh, st),
+                          witness="values ['1', '2.5'] of a string Property: one process suggests dtype int, another float")
+    if not n_pick:
+        rep.ok("DET-1", "no rule picks from a set by max/min", "ok", "odml/validation.py")
+
+    # --------------------------------------------------------------- CACHE-1 (shared with C18)
+    from .c18 import publish_after_finalize
+    publish_after_finalize(prog, rep, prog.cls("Terminologies"), "Terminologies", "CACHE-1")
 
     # --------------------------------------------------------------- RESET-1
     rep.rule("RESET-1", "in Validation.run_validation the store self.errors = [] dominates every call of self.validate and every "
